@@ -3,9 +3,12 @@
 (* Symbolic (Dolev-Yao) model of signing for the signed common structures. *)
 (* Keys are atoms; Sig(k, m) is unforgeable: the only way to obtain it is  *)
 (* to own k.  A signed structure is a record                               *)
-(*   [kind, idkey, content, offline (none or [tkey, auth]), sig]           *)
+(*   [kind, idkey, revkey, content, offline (none or [tkey, expires,      *)
+(*    auth]), sig]                                                         *)
 (* where auth is the identity key's signature over the transient key and   *)
-(* sig the closing signature over prefix(kind) ++ content.                 *)
+(* its expiry, sig the closing signature over prefix(kind) ++ content, and *)
+(* revkey the structure's own signing_key field (the revocation key of a   *)
+(* legacy LeaseSet: part of the content, never a key to verify with).      *)
 (***************************************************************************)
 EXTENDS Integers, Sequences, FiniteSets, TLC
 
@@ -13,21 +16,26 @@ Kinds == {"RouterInfo", "LeaseSet", "LeaseSet2", "MetaLeaseSet", "EncryptedLease
 Prefix(kind) == CASE kind = "LeaseSet2" -> 3 [] kind = "MetaLeaseSet" -> 7 [] kind = "EncryptedLeaseSet" -> 5 [] OTHER -> 0   \* 0 = no prefix
 HasOfflineOption(kind) == kind \in {"LeaseSet2", "MetaLeaseSet", "EncryptedLeaseSet"}
 Sig(k, m) == << "sig", k, m >>
-Msg(kind, idkey, content, offline) == << Prefix(kind), idkey, content, offline >>
-AuthMsg(tkey) == << "offline", tkey >>
-None == [present |-> FALSE, tkey |-> "-", auth |-> << "none" >>]
+Msg(kind, idkey, revkey, content, offline) == << Prefix(kind), idkey, revkey, content, offline >>
+AuthMsg(tkey, expires) == << "offline", tkey, expires >>      \* the identity authorises THIS transient key until THIS time
+None == [present |-> FALSE, tkey |-> "-", expires |-> "-", auth |-> << "none" >>]
+Expiries == {"e0", "e1"}
 
 \* the contract: who must have signed what
 Authentic(s) ==
   IF ~s.offline.present
-  THEN s.sig = Sig(s.idkey, Msg(s.kind, s.idkey, s.content, s.offline))
-  ELSE /\ s.sig = Sig(s.offline.tkey, Msg(s.kind, s.idkey, s.content, s.offline))
-       /\ s.offline.auth = Sig(s.idkey, AuthMsg(s.offline.tkey))
+  THEN s.sig = Sig(s.idkey, Msg(s.kind, s.idkey, s.revkey, s.content, s.offline))
+  ELSE /\ s.sig = Sig(s.offline.tkey, Msg(s.kind, s.idkey, s.revkey, s.content, s.offline))
+       /\ s.offline.auth = Sig(s.idkey, AuthMsg(s.offline.tkey, s.offline.expires))
 \* the implementation-shaped verifier: picks the transient key when an offline block is present;
-\* ChecksAuth says whether it also verifies the offline block against the identity key
-ImplVerify(s, ChecksAuth) ==
+\* ChecksAuth says whether it also verifies the offline block against the identity key.  Flaw names a deviation:
+\*   "cache-no-expiry"  the authorisation is looked up by (identity key, transient key, signature bytes) without the expiry it covers
+\*   "accepts-revkey"   a legacy LeaseSet is also accepted when its signature verifies under its own signing_key field
+ImplVerify(s, ChecksAuth, Flaw) ==
   IF ~s.offline.present
-  THEN s.sig = Sig(s.idkey, Msg(s.kind, s.idkey, s.content, s.offline))
-  ELSE /\ s.sig = Sig(s.offline.tkey, Msg(s.kind, s.idkey, s.content, s.offline))
-       /\ (ChecksAuth => s.offline.auth = Sig(s.idkey, AuthMsg(s.offline.tkey)))
+  THEN \/ s.sig = Sig(s.idkey, Msg(s.kind, s.idkey, s.revkey, s.content, s.offline))
+       \/ (Flaw = "accepts-revkey" /\ s.kind = "LeaseSet" /\ s.sig = Sig(s.revkey, Msg(s.kind, s.idkey, s.revkey, s.content, s.offline)))
+  ELSE /\ s.sig = Sig(s.offline.tkey, Msg(s.kind, s.idkey, s.revkey, s.content, s.offline))
+       /\ (ChecksAuth => IF Flaw = "cache-no-expiry" THEN \E e \in Expiries : s.offline.auth = Sig(s.idkey, AuthMsg(s.offline.tkey, e))
+                                                        ELSE s.offline.auth = Sig(s.idkey, AuthMsg(s.offline.tkey, s.offline.expires)))
 =============================================================================
